@@ -37,7 +37,12 @@ SNIPPETS = {
 
 # eligible files without a single token: they have no findings, and nothing of them may reach another file
 SPECIAL_CONTENTS = {'blank': '\n\n  \n\t\n\n\n', 'empty': '', 'comment': '// nothing here\n/* pragma solidity ^0.8.0; a / b * c */\n\n',
-                    'one space': ' '}
+                    'one space': ' ',
+                    # ... and eligible files WITH findings that hold no contract, library or interface at all: a floating pragma, a file-level
+                    # struct, a free function (the directory result is the union over ALL eligible files, whatever they declare)
+                    'free_only': 'pragma solidity ^0.8.16;\nstruct Pt { uint128 a; uint256 b; uint128 c; }\nfunction fr(uint256 a, uint256[] memory arr) pure returns (uint256) {\n    a + 1;\n    a >= 1;\n'
+                                 '    for (uint256 i = 0; i < arr.length; i++) { }\n    return a / 2 * 3;\n}\n',
+                    'pragma_only': 'pragma solidity ^0.8.0;\nimport "./Other.sol";\n'}
 
 
 # files WITH findings whose text starts / ends with white space (the lines of the findings count from the first byte of the file)
